@@ -62,6 +62,11 @@ def run_case(case, chooser=None):
     hops = []      # expected URL per request
 
     def strategy(peer, conn, req):
+        if case.get('challenge') and 'authorization' not in req['headers']:
+            # every server wants authentication first: whatever credentials the client
+            # then volunteers for this URL show up in the repeated request
+            return {'status': 401, 'headers': [['WWW-Authenticate', 'Basic realm="r"']],
+                    'body': 'auth required', 'ctype': 'text/plain'}
         k = state['k']
         state['k'] += 1
         headers = []
@@ -84,6 +89,71 @@ def run_case(case, chooser=None):
     return out
 
 
+def run_case_lib(case):
+    """The same redirect/challenge scripts against the documented client API:
+    WebClient.session(Request(url)) driven by hand (no application, no processor)."""
+    import asyncio
+    from vt.vloop import VLoop
+    from vt.sched import Env, drive
+    from vt.fakenet import Net
+    from vt import appharn
+    plan = list(case['chain'])
+    state = {'k': 0}
+
+    def strategy(peer, conn, req):
+        if case.get('challenge') and 'authorization' not in req['headers']:
+            return {'status': 401, 'headers': [['WWW-Authenticate', 'Basic realm="r"']],
+                    'body': 'auth required', 'ctype': 'text/plain'}
+        k = state['k']
+        state['k'] += 1
+        if k < len(plan):
+            code, loc = plan[k]
+            return {'redirect': [code, loc]}
+        return {'body': 'done', 'ctype': 'text/plain'}
+
+    site = site_hosts()
+    loop = VLoop().install()
+    loop.watchdog = 10.0
+    env = Env(loop)
+    peer = appharn.SitePeer(site, strategy)
+    net = Net(loop, env, peer).install()
+    out = {'result': None, 'exc': None, 'exit': 0}
+    try:
+        from wpull.protocol.http.client import Client
+        from wpull.protocol.http.web import WebClient
+        from wpull.protocol.http.request import Request
+        from wpull.network.pool import ConnectionPool
+        from wpull.errors import NetworkError, ProtocolError, ServerError
+        Resolver = appharn.make_resolver_class(site['hosts'], net)
+        appharn._patch_conn_names(net)
+        web_client = WebClient(Client(connection_pool=ConnectionPool(resolver=Resolver())))
+
+        @asyncio.coroutine
+        def task():
+            try:
+                request = Request(case['start'])
+            except ValueError:
+                return
+            try:
+                session = web_client.session(request)
+                with session:
+                    while not session.done():
+                        yield from session.start()
+                        yield from session.download()
+            except (NetworkError, ProtocolError, ServerError):
+                pass
+        t = loop.create_task(task())
+        out['result'] = drive(loop, env, Chooser(), lambda: t.done(), horizon=20000,
+                              timers='idle', early=False)
+        if t.done() and not t.cancelled() and t.exception() is not None:
+            out['exc'] = repr(t.exception())
+        out['requests'] = peer.requests
+        return out
+    finally:
+        net.uninstall()
+        loop.uninstall()
+
+
 def hostkey(conn, req):
     return req['headers'].get('host', conn.host_name).replace(':', '_')
 
@@ -102,7 +172,9 @@ def judge(case, out):
         return None if not reqs else 'request sent for an unparsable URL'
     first_host = URLInfo.parse(cur).hostname
     plan = case['chain']
-    for k, q in enumerate(reqs):
+    k = -1
+    for q in reqs:
+        k += 1
         raw = q['raw']
         where = 'hop %d (%s)' % (k, cur)
         # --- syntax -----------------------------------------------------------------
@@ -131,6 +203,13 @@ def judge(case, out):
             return '%s: sent to %s:%s' % (where, q['hostname'], q['port'])
         ui = URLInfo.parse(cur)
         if 'authorization' in q['headers']:
+            if ui.username and ui.password:
+                import base64
+                want = 'Basic ' + base64.b64encode(
+                    ('%s:%s' % (ui.username, ui.password)).encode('utf-8')).decode()
+                if q['headers']['authorization'] != want:
+                    return '%s: Authorization %r is not the credentials of this URL' % (
+                        where, q['headers']['authorization'][:40])
             if not (ui.password or ui.username) and host != first_host:
                 return ('%s: Authorization for %s sent to %s' % (where, first_host, host))
             if not (ui.password or ui.username) and k > 0 and \
@@ -152,6 +231,9 @@ def judge(case, out):
             if ref.startswith('https://') and scheme == 'http':
                 return '%s: Referer %r leaked from https to http' % (where, ref)
         # --- next hop ----------------------------------------------------------------
+        if case.get('challenge') and q.get('answer') == 401:
+            k -= 1              # the same URL is asked for again (or the fetch ends here)
+            continue
         if k < len(plan):
             code, loc = plan[k]
             try:
@@ -183,6 +265,16 @@ def cases(tier):
                     out.append(dict(start=base, chain=chain, cookies=cookies))
                 # the cookie jar ignores URLs with user-info: same chains from a plain start
                 out.append(dict(start='http://a.test/start', chain=chain, cookies=True))
+                if n <= 2:
+                    # every hop answers 401 first (authentication state)
+                    out.append(dict(start=base, chain=chain, cookies=False, challenge=True))
+    lib = []
+    for c in out:
+        if c['start'] == base and not c['cookies'] and len(c['chain']) <= 2:
+            lib.append(dict(c, lib=True))
+    for u in START_URLS:
+        lib.append(dict(start=u, chain=[], cookies=False, lib=True))
+    out += lib
     for loc in LOCATIONS:
         for code in CODES:
             out.append(dict(start='http://a.test/s', chain=[(code, loc)], cookies=True))
@@ -240,7 +332,7 @@ def run_job(job):
             res['violations'].append(dict(violation=v, signature='C16:referer', referer=True))
         return res
     for case in job['cases']:
-        out = run_case(case)
+        out = run_case_lib(case) if case.get('lib') else run_case(case)
         res['evaluations'] += 1
         res['extra']['requests_checked'] += len(out['requests'])
         res['extra']['requests_with_authorization'] = res['extra'].get(
@@ -251,7 +343,7 @@ def run_job(job):
         v = judge(case, out)
         shape = (len(case['chain']), tuple(c for c, _ in case['chain']),
                  tuple(re.sub(r'/h\d+$', '', l) for _, l in case['chain']), case['cookies'],
-                 case['start'])
+                 case['start'], bool(case.get('challenge')), bool(case.get('lib')))
         res['distinct'].add(h64(shape))
         key = 'reqs=%d %s' % (len(out['requests']), 'ok' if not v else 'bad')
         res['outcomes'][key] = res['outcomes'].get(key, 0) + 1
@@ -274,7 +366,7 @@ def replay(rec):
         return v, 'C16:referer' if v else None, [q['raw'] for q in out['requests']]
     case = rec['case']
     case['chain'] = [tuple(x) for x in case['chain']]
-    out = run_case(case)
+    out = run_case_lib(case) if case.get('lib') else run_case(case)
     v = judge(case, out)
     return (rec['violation'] if v else None), (rec['signature'] if v else None), \
         [q['raw'] for q in out['requests']]
